@@ -2260,7 +2260,7 @@ def net_if_addrs():
                 debug(err)
             else:
                 if broadcast is not None:
-                    nt._replace(broadcast=broadcast)
+                    nt = nt._replace(broadcast=broadcast)
 
         ret[name].append(nt)
 
